@@ -1,1 +1,69 @@
-// harnesses for module m_lname (included into /repo under cfg(kani))
+// C13: -lname sees a symbolic link only where the link itself is the entry.
+use super::*;
+use crate::find::matchers::entry::verif_kani::*;
+use crate::find::matchers::Follow;
+use std::path::Path;
+
+static mut IS_LINK: bool = false;
+static mut NREADLINK: usize = 0;
+fn readlink_stub<P: AsRef<Path>>(_p: P) -> std::io::Result<PathBuf> {
+    unsafe { NREADLINK += 1; if IS_LINK { Ok(PathBuf::from("t")) } else { Err(std::io::Error::from_raw_os_error(libc::EINVAL)) } }
+}
+fn pm_stub(_p: &Pattern, _s: &str) -> bool { true }
+
+// @harness props=C13 tier=quick cost=150 flags=nomem
+// @exec LinkNameMatcher::matches, read_link_target, WalkEntry::{file_type,metadata,path}, Follow::metadata_at_depth
+// @sym world (lstat/stat records, errno ENOENT), follow P/H/L, depth 0..1; readlink succeeds iff lstat says symlink
+// @bounds one path; depth <= 1; pattern matching itself cut (Pattern::matches -> true, i.e. pattern '*')
+// @assume kernel contract for stat vs lstat; readlink() = EINVAL on non-links
+// @replay lname_follow
+/// With a pattern that matches everything, -lname is true exactly when the entry itself is a link:
+/// lstat says symlink and (the follow mode does not apply or the link is dangling).
+#[kani::proof]
+#[kani::unwind(3)]
+#[kani::stub(alloc::fmt::format, fmt_stub)]
+#[kani::stub(<std::io::Stderr as std::io::Write>::write_fmt, wf_stub)]
+#[kani::stub(std::rt::thread_cleanup, noop_stub)]
+#[kani::stub(std::fs::read_link, readlink_stub)]
+#[kani::stub(std::fs::metadata, stat_stub)]
+#[kani::stub(std::fs::symlink_metadata, lstat_stub)]
+#[kani::stub(Pattern::matches, pm_stub)]
+fn c13_lname_follow_guard() {
+    let (lst, _sst, s_ok, _s_err) = any_world(&[libc::ENOENT]);
+    let l_is_link = is_type(lst.st_mode, libc::S_IFLNK);
+    unsafe { IS_LINK = l_is_link; NREADLINK = 0; }
+    let follow = any_follow();
+    let depth: usize = kani::any();
+    kani::assume(depth <= 1);
+    let entry = WalkEntry::new("a", depth, follow);
+    let deps = Deps::new();
+    let mut io = MatcherIO::new(&deps);
+    let m = LinkNameMatcher { pattern: crate::find::matchers::glob::verif_kani::pattern_none() };
+    let got = m.matches(&entry, &mut io);
+    let entry_is_link = l_is_link && (!follow.follow_at_depth(depth) || !s_ok);
+    assert!(got == entry_is_link);
+    kani::cover!(got && follow == Follow::Always);
+    kani::cover!(!got && l_is_link && follow == Follow::Roots && depth == 0);
+    kani::cover!(got && follow == Follow::Roots && depth == 1);
+    std::mem::forget(entry);
+}
+#[kani::proof]
+#[kani::unwind(3)]
+#[kani::stub(alloc::fmt::format, fmt_stub)]
+#[kani::stub(<std::io::Stderr as std::io::Write>::write_fmt, wf_stub)]
+#[kani::stub(std::rt::thread_cleanup, noop_stub)]
+#[kani::stub(std::fs::read_link, readlink_stub)]
+#[kani::stub(std::fs::metadata, stat_stub)]
+#[kani::stub(std::fs::symlink_metadata, lstat_stub)]
+#[kani::stub(Pattern::matches, pm_stub)]
+fn c13_lname_follow_guard_canary() {
+    let (lst, _sst, _s_ok, _s_err) = any_world(&[libc::ENOENT]);
+    let l_is_link = is_type(lst.st_mode, libc::S_IFLNK);
+    unsafe { IS_LINK = l_is_link; }
+    let entry = WalkEntry::new("a", 0, any_follow());
+    let deps = Deps::new();
+    let mut io = MatcherIO::new(&deps);
+    let m = LinkNameMatcher { pattern: crate::find::matchers::glob::verif_kani::pattern_none() };
+    assert!(m.matches(&entry, &mut io) == l_is_link); // ignores the follow mode: must FAIL
+    std::mem::forget(entry);
+}
